@@ -4,6 +4,9 @@
 use serde::{Deserialize, Serialize};
 use std::collections::HashSet;
 
+/// Histories on which the search budget ran out (no verdict).
+pub static UNDECIDED: std::sync::atomic::AtomicU64 = std::sync::atomic::AtomicU64::new(0);
+
 /// The value an `update(t)` closure computes from `v`: any lost or reordered update changes it.
 pub fn upd(v: u64, t: u64) -> u64 {
     (v.wrapping_mul(31).wrapping_add(t)) % 1_000_003
@@ -232,7 +235,8 @@ pub fn check(init: &Spec, events: &[Event]) -> Result<(), String> {
         return Ok(());
     }
     if budget == 0 {
-        // undecided within the budget: not reported as a violation
+        // undecided within the budget: not reported as a violation, but counted
+        UNDECIDED.fetch_add(1, std::sync::atomic::Ordering::Relaxed);
         return Ok(());
     }
     let stuck: Vec<String> = events.iter().enumerate().filter(|(i, _)| best.1 & (1 << i) == 0).map(|(_, e)| format!("t{} {:?} -> {:?} [{}..{}]", e.tid, e.op, e.res, e.inv, e.ret)).collect();
